@@ -26,7 +26,10 @@ fn run_programs(th: &RootedThread, tid: usize, progs: &[String]) -> Vec<Value> {
 /// job: {"id", "modules": [[name, src]..], "threads": [[src, ...], ...], "gc_stress": k}
 ///   or {"id", "scenario": "collect_vs_push", "iterations": n}
 pub fn cmd(_args: &[String]) {
-    std::panic::set_hook(Box::new(|_| {}));
+    std::panic::set_hook(Box::new(|info| {
+        eprintln!("PANIC {}", info);
+    }));
+    gluon::vm::verif::set_global_quarantine(true);
     serve(|job| {
         host::GLOBAL_LOG_ON.store(true, std::sync::atomic::Ordering::SeqCst);
         host::GLOBAL_LOG.lock().unwrap().clear();
